@@ -151,5 +151,44 @@ func VerifC06OneWay() {
 	_ = context.Background
 }
 
+// VerifC06Sequence: "exactly once when the node is reachable and the context is not
+// cancelled" holds for every call, whatever happened to the calls before it. A first call of
+// any kind is given a context that ends at any point (before queuing, queued, while written,
+// after); then - the peer is up and reading all the time - a one-way call of any of the four
+// kinds with a live context must be written to the peer exactly once, with its payload, and
+// return; a third one likewise (the node stays usable).
+func VerifC06Sequence() {
+	w := vMixed(1, 0, nil)
+	p := w.peers[0]
+	ka := vChoice("first", ckN)
+	a := fsNewCall(ka, 1, 0)
+	go a.run(w, w.cfg)
+	a.cancel()
+	vQuiescent()
+	vReach("first-" + ckNames[ka])
+	before := len(p.wire)
+	vAssert(before <= 1, "C06.delivered-more-than-once")
+	for i := 0; i < 2; i++ {
+		kb := ckMulticast + vChoice("later", 4)
+		b := fsNewCall(kb, 2+i, 0)
+		go b.run(w, w.cfg)
+		vQuiescent() // timers may run: waiting out a back-off is C10's subject, not delivery
+		n := 0
+		for _, m := range p.wire {
+			if m.Message == protoreflect.ProtoMessage(b.req) {
+				n++
+			}
+		}
+		vAssert(n <= 1, "C06.delivered-more-than-once")
+		if n == 0 {
+			vFail("C06.one-way-call-not-delivered-to-a-reachable-node|C09.later-call-not-delivered")
+		}
+		vAssert(b.returned, "C06.oneway-waits-for-handler")
+	}
+	vReach("later-calls-delivered")
+}
+
+func VerifC06SequenceTwin() { VerifC06Sequence(); vFail("C06.twin") }
+
 func VerifC06PayloadTwin(nmax int) { VerifC06Payload(nmax); vFail("C06.twin") }
 func VerifC06OneWayTwin()          { VerifC06OneWay(); vFail("C06.twin") }
